@@ -81,6 +81,18 @@ func vq2ExprClasses(c *vkit.Case, e *vq2Expr, ev *vq2Eval, skipped bool) (nontri
 			c.Class("op:" + op)
 		}
 	}
+	var walk func(x *vq2Expr)
+	walk = func(x *vq2Expr) {
+		if x.Op == "rowi" {
+			c.Class("int:" + x.Cond)
+			c.ClassIf(x.Cond != "notnull" && (x.V1 == 0 || (x.Cond == "between" && x.V2 == 0)), "int:predicate0")
+			c.ClassIf(x.Cond != "notnull" && x.V1 < 0, "int:negativePredicate")
+		}
+		for _, k := range x.Kids {
+			walk(k)
+		}
+	}
+	walk(e)
 	d := e.depth()
 	c.Class("depth:%d", d)
 	multi := len(ev.leafSh) >= 2
@@ -94,6 +106,18 @@ func vq2ExprClasses(c *vkit.Case, e *vq2Expr, ev *vq2Eval, skipped bool) (nontri
 	c.ClassIf(len(ev.set) == 0, "emptyResult")
 	c.ClassIf(len(ev.set) > 0 && d >= 2, "nonEmptyResultDepth>=2")
 	return !skipped && !ev.mustErr && ((d >= 2 && multi) || ev.edge || ev.carry || ev.notGap)
+}
+
+func vq2SchemaClasses(c *vkit.Case, m *vq2Model) {
+	for _, f := range m.Fields {
+		if f.Kind == "time" {
+			c.Class("quantum:" + f.Quantum)
+			c.ClassIf(f.NoStd, "noStandardView")
+		}
+		if f.Kind == "int" {
+			c.Class("intRange:%d..%d", f.Min, f.Max)
+		}
+	}
 }
 
 // TestVerifC15_Expr: generated expression trees over a generated dataset.
@@ -124,6 +148,7 @@ func TestVerifC15_Expr(t *testing.T) {
 		c.Key("expr", vq2SchemaText(m), loadText, qs)
 		c.Class("shards:%d", len(vq2Shards(cols)))
 		c.ClassIf(m.Track, "trackExistence")
+		vq2SchemaClasses(c, m)
 		c.Sample(map[string]interface{}{"schema": vq2SchemaText(m), "data": loadText, "queries": qs})
 	})
 }
@@ -263,6 +288,7 @@ func TestVerifC15_Writes(t *testing.T) {
 			}
 			touched[o.Field][o.Row] = true
 			c.Class("write:" + o.Kind + ":" + f.Kind)
+			c.ClassIf(o.Kind == "clear" && f.NoStd, "write:clear:noStandardView")
 			var before vq2Set
 			if f.Kind == "mutex" || f.Kind == "bool" {
 				before = vq2Set{}
@@ -304,6 +330,7 @@ func TestVerifC15_Writes(t *testing.T) {
 		}
 		vq2VerifyAll(t, env, idx, m, touched, desc)
 		c.Key("writes", vq2SchemaText(m), hist)
+		vq2SchemaClasses(c, m)
 		c.Class("shards:%d", len(vq2Shards(cols)))
 		c.Sample(map[string]interface{}{"schema": vq2SchemaText(m), "history": hist})
 	})
